@@ -151,7 +151,8 @@ Section Chain.
     intros Hnd Hst Hk Hch Hties Hc Hrun.
     rewrite (lookup_unfold _ _ _ _ _ _ _ Hc) in Hrun.
     destruct (sort_desc cs) as [|c1 rest] eqn:Hsort; [discriminate|].
-    unfold rank_outcome in Hrun. destruct (filter _ rest) eqn:Hf; [|discriminate]. injection Hrun as <-.
+    unfold rank_outcome in Hrun. destruct (grp _ rest) eqn:Hf; [|discriminate]. injection Hrun as <-.
+    apply grp_single_nil_iff in Hf.
     assert (Hc1 : In c1 cs) by (apply sort_desc_In; rewrite Hsort; now left).
     pose proof (proj1 (cand_In _ _ _ _ _ _ _ _ Hc) Hc1) as (lv & Ht & Hm & Har1 & Hsp).
     pose proof (static_ms_meth _ _ Hst Hm) as Hsm.
@@ -229,7 +230,7 @@ Section Chain.
     lookup ms k = ONoMethod \/ (exists i, lookup ms k = ORun i) \/ (exists g, lookup ms k = OAmbig g).
   Proof.
     intros Hc. rewrite (lookup_unfold _ _ _ _ _ _ _ Hc). destruct (sort_desc cs) as [|c1 rest]; [now left|right].
-    unfold rank_outcome. destruct (filter _ rest); eauto.
+    unfold rank_outcome. destruct (grp _ rest); eauto.
   Qed.
 
   (* exactness: the implementation's outcome is the documented verdict *)
